@@ -190,7 +190,8 @@ def gen_config(ch: Choices, params: dict) -> dict:
 
 LOGGED = ("def {name}(fn):\n    @functools.wraps(fn)\n    def wrapper(*args, **kwargs):\n"
           "        return fn(*args, **kwargs)\n    return wrapper\n\n")
-HELPERS_PY = ("def helper_py(v):\n    return [v, v]\n\n"
+HELPERS_PY = ("NEST = [0]\n\n"
+              "def helper_py(v):\n    return [v, v]\n\n"
               "def helper_raises(v):\n    raise SimFault('helper')\n\n")
 
 
@@ -207,6 +208,20 @@ def function_source(cfg: dict, mm: int, j: int, fault: dict | None) -> tuple[str
         # (unbounded mutual recursion of whole compilations is a workload bug, not a fault)
         import re as _re
         stmts = ["a = x" if _re.search(r"\b(ct\d+_\d+|rg\d+)\(", st) else st for st in stmts]
+    if fault and fault.get("reentrant") and fault["fn"] == (mm, j):
+        # the body compiles ITS OWN definition once (guarded): the same comptime function is
+        # traced again while its trace is still running
+        me = f"ct{mm}_{j}" if local else f"M{mm}.ct{mm}_{j}"
+        guard = ["if NEST[0] == 0:", "        NEST[0] = 1", "        try:",
+                 f"            nc = {me}.compile_function()"]
+        guard += (["        except BaseException:", "            nc = None"]
+                  if fault["reentrant"] == "inner_raises_caught" else [])
+        guard += ["        finally:", "            NEST[0] = 0"]
+        pre = ["if NEST[0] == 1:\n        raise SimFault('inner trace')"] \
+            if fault["reentrant"].startswith("inner_raises") else []
+        stmts = pre + ["\n    ".join(guard)] + stmts
+        if fault["reentrant"] == "outer_raises":
+            stmts.append("raise SimFault('outer, after the nested trace')")
     if fault and fault.get("caller") == (mm, j):
         cm, cj = fault["fn"]
         call = f"ct{cm}_{cj}(x)" if cm == mm and local else f"M{cm}.ct{cm}_{cj}(x)"
@@ -359,6 +374,9 @@ def run_case(ch: Choices, params: dict) -> dict:
                               for p in (0, len(cfg["bodies"][callee])) for c in (False, True)]
         else:
             plans.append({"fn": target, "kind": k, "pos": 0})
+    for mode in ("ok", "outer_raises", "inner_raises", "inner_raises_caught"):
+        plans.append({"fn": target, "kind": "none_", "pos": 0, "reentrant": mode,
+                      "label": "reentrant_trace_" + mode})
     n_hist_ops = ch.rng_int(1, 4, "n_ops")
     op_draws = [(ch.draw(3, "op_kind"), ch.draw(8, "op_target")) for _ in range(n_hist_ops)]
     # between two ops the *user* may rebind, newly bind or delete one of the shadowed names
